@@ -52,3 +52,9 @@ Fixpoint finished (r a : nat) (h : list it) : bool :=
 Definition check_case (c : nat * list it * list obs * bool) : bool :=
   let '(r, h, tr, fin) := c in
   list_beq obs_eqb (trace r 0 h) tr && Bool.eqb (finished r 0 h) fin.
+
+(* call-site observation (MrpProtocol): only the sends and the connection close are visible;
+   an unfinished loop may already have started the next send *)
+Definition check_case_site (c : nat * list it * list obs * bool) : bool :=
+  let '(r, h, tr, failed) := c in
+  list_beq obs_eqb (trace r 0 h) tr && Bool.eqb (existsb (obs_eqb Failure) (trace r 0 h)) failed.
